@@ -78,9 +78,10 @@ def make_case(rng):
     return table, lists, cfg
 
 
-def build(table, lists, cfg, use_tuple_expect=False):
+def build(table, lists, cfg, use_tuple_expect=False, own_answers=False):
     from mitxgraders import SingleListGrader
-    sub = lib.TableGrader(table=table, ids=False)
+    # (own_answers: the item grader is a complete grader elsewhere in the course; inside the list it grades against the list's items)
+    sub = lib.TableGrader(table=table, ids=False, **({'answers': ('zz', {'expect': 'a', 'grade_decimal': 0.5})} if own_answers else {}))
     if use_tuple_expect and len(lists) > 1 and len(set((l['credit'], l['msg']) for l in lists)) == 1:
         answers = {'expect': tuple(l['items'] for l in lists), 'grade_decimal': lists[0]['credit'], 'msg': lists[0]['msg']}
     else:
@@ -161,7 +162,9 @@ def run_main(ctx):
         if i % 9 == 4:
             cfg['debug'] = True       # the log is appended to the message; grade, ok and the message proper are unchanged
             ctx.count('debug_cases')
-        g = build(table, lists, cfg, use_tuple_expect=(i % 3 == 0))
+        g = build(table, lists, cfg, use_tuple_expect=(i % 3 == 0), own_answers=(i % 4 == 1))
+        if i % 4 == 1:
+            ctx.count('item_grader_with_own_answers')
         # submission: derived from a target list (permuted / truncated / extended / corrupted) or random
         base = [alts[0][0] for alts in rng.choice(lists)['alts']]
         kind = rng.choice(['exact', 'perm', 'short', 'long', 'corrupt', 'random', 'blank', 'alt'])
@@ -178,7 +181,7 @@ def run_main(ctx):
         elif kind == 'random':
             items = [rng.choice(ALPHA + ['zz']) for _ in range(rng.randint(1, 7))]
         elif kind == 'blank':
-            items[rng.randrange(len(items))] = rng.choice(['', ' ', '  '])
+            items[rng.randrange(len(items))] = rng.choice(['', ' ', '  ', '\t', '\n', ' \r\n', u'\xa0', u'\u3000', ' \t '])     # blank = nothing but whitespace of any kind
         elif kind == 'alt':
             l = rng.choice(lists)
             items = [rng.choice(alts)[0] for alts in l['alts']]
